@@ -1562,7 +1562,8 @@ def plan(prop, tier):
     if tier == "thorough":
         return {"runs": 60000, "budget_s": 900, "timeout_s": 300,
                 "selfcheck_runs": 12}
-    return {"runs": 1800, "budget_s": 75, "timeout_s": 180,
+    return {"runs": {"C12": 1800, "C13": 3150, "C18": 2700}[prop],
+            "budget_s": 75, "timeout_s": 180,
             "selfcheck_runs": 6}
 
 
